@@ -28,6 +28,7 @@ ModsOf(d) ==
 
 WithDflt(f, v) == [f EXCEPT !.dflt = v]
 SubD == Class(DefaultOpts, <<WithDflt(U1("x"), 7), IntF("y", 2, TRUE, "little")>>)
+SubV(x, y) == PktV("C1", <<[n |-> "x", v |-> IntV(x)], [n |-> "y", v |-> IntV(y)]>>)    \* a complete value of class SubD
 
 UV_Smoke == {
     V1(<<U1("a"), IntF("b", 2, TRUE, "little")>>, "full", FALSE),
@@ -57,6 +58,16 @@ U_C02 ==
     \cup {VDecl([C0 |-> Class([DefaultOpts EXCEPT !.endian = "little"], <<IntF("a", 2, FALSE, "default"), RefF("s", "C1"), BitsF("h", 4), BitsF("l", 12)>>),
                  C1 |-> Class(DefaultOpts, <<IntF("x", 2, FALSE, "default"), DataF("d", SzMarker(<<0>>, FALSE, TRUE))>>)], "full", 1, FALSE)}
 
+\* positioned fields, a later-declared one placed before an earlier one; state kept between two packs
+U_C02_Pos ==
+    {V1(<<MvField(IntF("a", 2, FALSE, "default"), [kind |-> "at", arg |-> SzConst(p1), ref |-> "innermost-pkt"]),
+          MvField(U1("b"), [kind |-> "at", arg |-> SzConst(p2), ref |-> r]), U1("c")>>, "full", FALSE) :
+        p1 \in {2, 3}, p2 \in {0, 1, 5}, r \in {"innermost-pkt", "begins"}}
+    \cup {V1(<<U1("a"), MvField(DataF("d", SzConst(2)), [kind |-> "aligned", arg |-> SzConst(al), ref |-> "begins"]),
+               MvField(U1("z"), [kind |-> "shift", arg |-> SzConst(sh), ref |-> "current-offset"]), EmF("tail")>>, "full", FALSE) :
+              al \in {2, 4}, sh \in {0, 2}}
+    \cup {V1(BitFields(<<4, 4>>) \o <<U1("z")>>, "full", TRUE), V1(BitFields(<<3, 10, 3>>), "full", TRUE)}
+
 \* -------------------------------------------------------------------- C07 (pack side)
 U_C07V == {V1(BitFields(ws), "full", TRUE) : ws \in {<<4, 4>>, <<3, 5>>, <<1, 7>>, <<1, 6, 1>>, <<8>>}}
           \cup {V1(BitFields(ws), "full", FALSE) : ws \in {<<12, 4>>, <<4, 12>>, <<1, 22, 1>>, <<12, 12>>, <<5, 6, 5>>}}
@@ -72,6 +83,12 @@ U_C19 ==
      VDecl([C0 |-> Class(DefaultOpts, <<U1("n"), [RepCountF("r", U1("e"), SzField("n"), NoCond, 0) EXCEPT !.dflt = <<IntV(1), IntV(2)>>],
                                         RepCountF("k", RefF("e", "C1"), SzConst(1), NoCond, 0),
                                         [OptF("o", DataF("e", SzConst(1)), SzField("n")) EXCEPT !.dflt = BytesV(<<65>>)]>>), C1 |-> SubD], "subsets", 0, FALSE),
+     \* mutable defaults: a list of packets, a packet for an optional, a packet for a selected reference
+     VDecl([C0 |-> Class(DefaultOpts, <<U1("n"),
+                [RepCountF("r", RefF("e", "C1"), SzField("n"), NoCond, 0) EXCEPT !.dflt = <<SubV(3, 0), SubV(7, 0)>>],
+                [OptF("o", RefF("e", "C1"), SzField("n")) EXCEPT !.dflt = SubV(7, 4)],
+                RefSelF("v", EF("n"), <<[key |-> 0, alt |-> IntF("", 1, FALSE, "default")], [key |-> 1, alt |-> RefF("", "C1")]>>,
+                        "lambda", SubV(5, 0))>>), C1 |-> SubD], "subsets", 0, FALSE),
      VDecl([C0 |-> Class(DefaultOpts, <<U1("t"), RefSelF("v", EF("t"), <<[key |-> 0, alt |-> IntF("", 2, FALSE, "default")],
                                                                           [key |-> 1, alt |-> RefF("", "C1")]>>, "chooses", IntV(3)),
                                         DataF("m", SzMarker(<<0>>, FALSE, TRUE)), EmF("tail")>>), C1 |-> SubD], "subsets", 0, FALSE)}
